@@ -21,7 +21,7 @@ SPEC = {
         "File/Group/Rule incl. line extents, both modes), entry/routing correspondence against the real discovery and GetChecksForEntry, and "
         "correspondence of the real LineRange.Expand (in-file, empty and inverted ranges)",
         "external oracles (NewPositionRange line extent, name/duration validators) are Section variables; the lines theorems carry the explicit "
-        "premise plines_inside (proved of Model/YamlPosLines) and docs_fit (checked on every case; fails only in the known classes C02-lone-cr, C02-eof-implicit-null)",
+        "premise plines_inside (proved of Model/YamlPosLines) and docs_fit (checked on every case; fails only in the known class C02-lone-cr)",
         "runtime remainder NOT covered by any theorem (labelled partial): panics/hangs inside yaml.v3, the PromQL parser, text/template, "
         "the ~25 opaque checks and the renderers; covered by execution only: in-process pipeline (4 mode/schema variants, 4 renderers) and the "
         "real pint binary (console+JSON+checkstyle, TeamCity) on every generated/mutated/fixture file under timeout",
@@ -49,8 +49,8 @@ MANIFEST = {
             "range of every complete rule (1 <= first <= last <= TotalLines) and the line extent of every field, label and annotation are inside "
             "the file, in both modes, incl. YAML embedded in literal block scalars; the needed bound on NewPositionRange's lines is proved of the "
             "executable loop model used by the correspondence runs, together with the absence of index panics in that loop; (5) renderer index "
-            "arithmetic on line ranges: LineRange.Expand (JSON) returns First..Last for in-file ranges and panics iff Last < First-1, the console "
-            "loop prints every line of an in-file range and never indexes outside for any range. Tie: forest-level correspondence of the real "
+            "arithmetic on line ranges: LineRange.Expand (JSON) returns First..Last for in-file ranges and is total for every range (an inverted "
+            "one yields [First], fix 5f804fb), the console loop prints every line of an in-file range and never indexes outside for any range. Tie: forest-level correspondence of the real "
             "parser (both modes) + entries/routing correspondence against the real discovery/GetChecksForEntry + LineRange.Expand correspondence. "
             "Runtime remainder (panics, hangs, unrenderable reports, line ranges computed by the individual checks) is searched for, not proved: the "
             "real in-process pipeline (strict/relaxed x prometheus/thanos, console/JSON/checkstyle/TeamCity renderers) and the real pint binary run "
@@ -58,11 +58,11 @@ MANIFEST = {
             "documents with per-field defects, anchors/aliases/merge keys, YAML-in-YAML wrappers and byte/line mutations (CR/CRLF, tabs, "
             "non-UTF-8, truncation, token lines, pint comments).",
     "note": "Coq 8.16.1 kernel+VM, no axioms; hand models validated by differential execution on every run; crash/hang/renderability and the "
-            "line ranges built by individual checks are testing under timeout, labelled partial; two open known findings, both exactly the classes "
-            "where the hypothesis docs_fit of theorem (4) fails on real input: C02-lone-cr (yaml.v3 counts a lone CR / NEL / LS / PS as a line "
-            "break, pint does not: lines beyond the file, and ranges inverted by the mix make `pint lint --json` panic in LineRange.Expand) and "
-            "C02-eof-implicit-null (`? key` without value at the end of the file: yaml.v3 puts the implicit null on the line after the last "
-            "one; discovered by the docs_fit check).",
+            "line ranges built by individual checks are testing under timeout, labelled partial; two open known findings: C02-lone-cr (yaml.v3 "
+            "counts a lone CR / NEL / LS / PS as a line break, pint does not: line numbers beyond the file - exactly the class where the "
+            "hypothesis docs_fit of theorem (4) fails on real input; the crashes it caused are fixed by f44c1ab and 5f804fb) and C02-alias-fanout "
+            "(relaxed mode walks the exponential tree unfolding of alias-doubling documents: a 29-line file does not finish in 60 s; the "
+            "termination theorem (3) holds, the running time is not bounded by it).",
     "technique": "Coq theorems over Gallina parser/routing/position-lines/render models + forest, entry and Expand correspondence + "
                  "execution-based crash detector (in-process pipeline and real binary, four renderers)",
 }
